@@ -182,8 +182,8 @@ func genC05(t *rapid.T) c05Case {
 	if rapid.IntRange(0, 5).Draw(t, "cycle") == 0 {
 		plain := vLayout{Indent: "  ", Sep: ": ", EOL: "\n"}
 		c.S.Book.Recs = append(c.S.Book.Recs,
-			vRec{Head: "cyc0", HL: vLayout{EOL: "\n"}, Lines: []vLine{{Kind: vkEntry, Name: "cyc1", Num: "1", L: plain}}},
-			vRec{Head: "cyc1", HL: vLayout{EOL: "\n"}, Lines: []vLine{{Kind: vkEntry, Name: "cyc0", Num: "2", L: plain}}})
+			vRec{Head: "cyc=0", HL: vLayout{EOL: "\n"}, Lines: []vLine{{Kind: vkEntry, Name: "cyc=1", Num: "1", L: plain}}},
+			vRec{Head: "cyc=1", HL: vLayout{EOL: "\n"}, Lines: []vLine{{Kind: vkEntry, Name: "cyc=0", Num: "2", L: plain}}})
 		c.S.Book.NoFinalNL = false
 	}
 	return c
@@ -194,5 +194,5 @@ func init() { vRegister("C05", "c05.random", checkC05) }
 func TestVerifC05Random(t *testing.T) {
 	vRapid(t, "C05", "c05.random",
 		"random books (<=12 recipes, depth <=4, sometimes cyclic) and logs biased to ties (exact mode: small half-integer quantities), several unknown foods, repeated dates, --maxdepth 1..6 around h_max; 26 commands each run 12 (quick) / 40 (thorough) times in one process and, for 1/50 of the cases, 3/8 times as separate processes; all runs must agree byte for byte on stdout, failure and error text; non-trivial = >=2 unresolved foods, or a quantity tie, or an element-total tie, or h_max >= N-1 with >=2 recipes, or cyclic",
-		vBudget(800, 12000), genC05, checkC05)
+		vBudget(800, 4000), genC05, checkC05)
 }
